@@ -16,6 +16,7 @@ V = engine.VERIF
 
 # checks expected to catch each change (default: the property the change was written against)
 EXPECT = {
+    'c01_recv_header_except': ['C01', 'C04'],
     'c02b_wait_remote_dead_guard': ['C02', 'C01'],
     'c05b_next_result_nowait_first': ['C05', 'C06'],
     'c08b_retries_not_reset': ['C09'],
